@@ -219,7 +219,7 @@ def _allocation(ret):
 
 def _alloc_extent(f, I, *args):
     """extent passed to the allocation call (numpy.empty / zeros) of the returned array, re-evaluated."""
-    for (fq, callee, cargs, ckw, lineno) in I.call_log:
+    for (fq, callee, cargs, ckw, lineno, _cnf) in I.call_log:
         if fq == f.fq and callee.split(".")[-1] in ("empty", "zeros") and cargs:
             e = cargs[0]
             if isinstance(e, (tuple, list)) and e:
